@@ -20,6 +20,11 @@ def run(tier, seed, replay_path=None):
                        'record size = 24-byte header + value length', 'library models of DESIGN 3.3']
     PC.run_c14_step(ck, tier)
     PC.run_c14_bmc(ck, tier)
+    # concurrent form, on the side that lets the store outgrow its limit: under every schedule of two clients the accounted usage
+    # does not end below the bytes stored (the step check above then bounds the stored total by limit + record)
+    from . import C16
+    names = ['evicting set||delete', 'get||get (policy, expired item)', 'get||delete (policy, expired item)', 'set||get (policy)']
+    ck.fork_map(names, lambda c, name: C16.run_item(c, ('policy', name), tier))
     return ck.finish()
 
 
